@@ -149,7 +149,7 @@ func getGate(p *Prog) *gateInfo {
 		}
 	}
 	// admin type globals
-	adm := p.Func(modPath, "isAdminMessageType")
+	adm := p.adminTypeFn()
 	for _, cl := range Calls(adm) {
 		if callName(cl.Common()) == "bytes.Equal" {
 			for _, a := range cl.Common().Args {
@@ -231,7 +231,7 @@ func c01R1(c *Ctx) {
 			wantAdmin := m == "FromAdmin"
 			msgArg := p.Origin(cs.Common().Args[0]).String()
 			ok := d.Implies(func(a *Atom) bool {
-				if a.Rel != "" || a.Val != wantAdmin || !a.B.IsCallTo("isAdminMessageType") || len(a.B.Args) != 1 {
+				if a.Rel != "" || a.Val != wantAdmin || !(a.B.Kind == "call" && a.B.Callee == p.adminTypeFn()) || len(a.B.Args) != 1 {
 					return false
 				}
 				t := a.B.Args[0]
@@ -413,7 +413,7 @@ func c01R2(c *Ctx) {
 							}
 						}
 						if c2, ok := in.(ssa.CallInstruction); ok && seen {
-							if cal2 := c2.Common().StaticCallee(); cal2 != nil && cal2.Name() == "handleStateError" {
+							if cal2 := c2.Common().StaticCallee(); p.isStateErrorExit(cal2) {
 								stateErr = true
 							}
 						}
